@@ -12,106 +12,25 @@ From M Require RegModel.
 From M Require RegProofs.
 Import ListNotations.
 
-Module T_stb_coherent. Import RegProofs. Local Open Scope bool_scope. Local Open Scope Z_scope.
-Import RegModel. Local Open Scope N_scope. Local Open Scope bool_scope. Local Open Scope Z_scope.
-Theorem C11_stb_coherent :
-  forall qc ops,
-  0 < qc -> Forall legal ops -> Inv (fold_left step ops (init qc)).
-Proof. exact (@RegProofs.stb_coherent). Qed.
-End T_stb_coherent.
-Definition C11_stb_coherent := @T_stb_coherent.C11_stb_coherent.
+Definition C11_stb_coherent := @RegProofs.stb_coherent.
 
-Module T_tie_reg_tables. Import Tie. Local Open Scope bool_scope. Local Open Scope Z_scope.
-Local Open Scope Z_scope.
-Theorem C11_tie_reg_tables :
-  Generated.gen_reg_count = Z.of_nat (length regs_in_order) /\
-  map (fun i => details_from_tables i) (seq 0 (length regs_in_order)) = map (fun r => Some (RegModel.details r)) regs_in_order.
-Proof. exact (@Tie.tie_reg_tables). Qed.
-End T_tie_reg_tables.
-Definition C11_tie_reg_tables := @T_tie_reg_tables.C11_tie_reg_tables.
+Definition C11_tie_reg_tables := @Tie.tie_reg_tables.
 
-Module T_tie_stb_bits. Import Tie. Local Open Scope bool_scope. Local Open Scope Z_scope.
-Local Open Scope Z_scope.
-Theorem C11_tie_stb_bits :
-  Generated.gen_stb_bits = [RegModel.SRQ; RegModel.QMA; 32; 128; 8]%N /\ Generated.gen_reg_val_bits = 16.
-Proof. exact (@Tie.tie_stb_bits). Qed.
-End T_tie_stb_bits.
-Definition C11_tie_stb_bits := @T_tie_stb_bits.C11_tie_stb_bits.
+Definition C11_tie_stb_bits := @Tie.tie_stb_bits.
 
-Module T_commands_coherent. Import CmdLayer. Local Open Scope bool_scope. Local Open Scope Z_scope.
-Import RegModel RegProofs C12Latch CmdModel. Local Open Scope N_scope.
-Theorem C11_commands_coherent :
-  forall qc acts,
-  (0 < qc)%Z -> Forall act_legal acts -> Inv (fold_left act_step acts (init qc)).
-Proof. exact (@CmdLayer.commands_coherent). Qed.
-End T_commands_coherent.
-Definition C11_commands_coherent := @T_commands_coherent.C11_commands_coherent.
+Definition C11_commands_coherent := @CmdLayer.commands_coherent.
 
-Module T_stbq_reports_summaries. Import CmdLayer. Local Open Scope bool_scope. Local Open Scope Z_scope.
-Import RegModel RegProofs C12Latch CmdModel. Local Open Scope N_scope.
-Theorem C11_stbq_reports_summaries :
-  forall qc acts v,
-  (0 < qc)%Z -> Forall act_legal acts ->
-  let s := fold_left act_step acts (init qc) in
-  snd (run_cmd s KStbQ) = Some v ->
-  fst (run_cmd s KStbQ) = s /\
-  N.testbit v 5 = negb (N.land (rg s ESR) (rg s ESE) =? 0) /\
-  N.testbit v 7 = negb (N.land (rg s OPER) (rg s OPERE) =? 0) /\
-  N.testbit v 3 = negb (N.land (rg s QUES) (rg s QUESE) =? 0) /\
-  N.testbit v 2 = negb (qlen s =? 0)%Z /\
-  N.testbit v 6 = negb (N.land (N.ldiff v 64) (N.ldiff (rg s SRE) 64) =? 0).
-Proof. exact (@CmdLayer.stbq_reports_summaries). Qed.
-End T_stbq_reports_summaries.
-Definition C11_stbq_reports_summaries := @T_stbq_reports_summaries.C11_stbq_reports_summaries.
+Definition C11_stbq_reports_summaries := @CmdLayer.stbq_reports_summaries.
 
-Module T_event_query_clears. Import CmdLayer. Local Open Scope bool_scope. Local Open Scope Z_scope.
-Import RegModel RegProofs C12Latch CmdModel. Local Open Scope N_scope.
-Theorem C11_event_query_clears :
-  forall s c e k,
-  event_cmd c e k -> Inv s ->
-  let '(s', r) := run_cmd s c in
-  r = Some (rg s e) /\ rg s' e = 0 /\ N.testbit (rg s' STB) k = false /\ Inv s'.
-Proof. exact (@CmdLayer.event_query_clears). Qed.
-End T_event_query_clears.
-Definition C11_event_query_clears := @T_event_query_clears.C11_event_query_clears.
+Definition C11_event_query_clears := @CmdLayer.event_query_clears.
 
-Module T_cls_clears. Import CmdLayer. Local Open Scope bool_scope. Local Open Scope Z_scope.
-Import RegModel RegProofs C12Latch CmdModel. Local Open Scope N_scope.
-Theorem C11_cls_clears :
-  forall s,
-  Inv s ->
-  let s' := fst (run_cmd s KCls) in
-  rg s' ESR = 0 /\ rg s' OPER = 0 /\ rg s' QUES = 0 /\ qlen s' = 0%Z /\
-  N.testbit (rg s' STB) 5 = false /\ N.testbit (rg s' STB) 7 = false /\ N.testbit (rg s' STB) 3 = false /\ N.testbit (rg s' STB) 2 = false /\
-  Inv s'.
-Proof. exact (@CmdLayer.cls_clears). Qed.
-End T_cls_clears.
-Definition C11_cls_clears := @T_cls_clears.C11_cls_clears.
+Definition C11_cls_clears := @CmdLayer.cls_clears.
 
-Module T_cmd_history_runs. Import CmdLayer. Local Open Scope bool_scope. Local Open Scope Z_scope.
-Import RegModel RegProofs C12Latch CmdModel. Local Open Scope N_scope.
-Theorem C11_cmd_history_runs :
-  let s := fold_left act_step [AOp (OPush (-113)%Z); ACmd (KEse 32); ACmd (KSre 32); ACmd KStbQ] (init 4) in
-  rg s STB = 100 /\ snd (run_cmd s KEsrQ) = Some 32 /\ rg (fst (run_cmd s KEsrQ)) STB = 4 /\ rg (fst (run_cmd s KCls)) STB = 0.
-Proof. exact (@CmdLayer.cmd_history_runs). Qed.
-End T_cmd_history_runs.
-Definition C11_cmd_history_runs := @T_cmd_history_runs.C11_cmd_history_runs.
+Definition C11_cmd_history_runs := @CmdLayer.cmd_history_runs.
 
-Module T_stb_coherent_user. Import StbUser. Local Open Scope bool_scope. Local Open Scope Z_scope.
-Import RegModel RegProofs CmdModel CmdLayer. Local Open Scope N_scope.
-Theorem C11_stb_coherent_user :
-  forall qc xs,
-  (0 < qc)%Z -> Forall xlegal xs -> Inv (fold_left xstep xs (init qc)).
-Proof. exact (@StbUser.stb_coherent_user). Qed.
-End T_stb_coherent_user.
-Definition C11_stb_coherent_user := @T_stb_coherent_user.C11_stb_coherent_user.
+Definition C11_stb_coherent_user := @StbUser.stb_coherent_user.
 
-Module T_user_bit_raises_mss. Import StbUser. Local Open Scope bool_scope. Local Open Scope Z_scope.
-Import RegModel RegProofs CmdModel CmdLayer. Local Open Scope N_scope.
-Theorem C11_user_bit_raises_mss :
-  let s := fold_left xstep [XA (ACmd (KSre 256)); XStb true 256] (init 2) in
-  rg s STB = 320 /\ rg (xstep s (XStb false 256)) STB = 0.
-Proof. exact (@StbUser.user_bit_raises_mss). Qed.
-End T_user_bit_raises_mss.
-Definition C11_user_bit_raises_mss := @T_user_bit_raises_mss.C11_user_bit_raises_mss.
+Definition C11_user_bit_raises_mss := @StbUser.user_bit_raises_mss.
+
+Definition C11_tie_lib_bits := @StbUser.tie_lib_bits.
 
